@@ -1309,6 +1309,15 @@ def _gen_cases(prop, tier, seed):
             for k in range(2 if quick else 4):
                 ops = header(mods, cfg) + render_schedule(rng, scripts) + ["eof"]
                 cases.append(Case("c07/%d/all%d" % (i, k), ops, tags={"group": "c07/%d" % i, "role": "all", "mods": mods}))
+            if not cfg.timeout and not any(e[0] == "timeout" for ev in scripts.values() for e in ev):
+                # the whole interleaving in one write of more than one read's worth (4096 bytes), led by
+                # a long line for a client nobody announced (seeded change C07-7 registered the input
+                # event edge-triggered: what one read left in the pipe stayed there)
+                sched = render_schedule(rng, scripts)
+                if all(l.startswith("in ") for l in sched):
+                    burst = b"99 N " + b"x" * 5000 + b"\n" + b"".join(unhx(l.split(" ")[1]) for l in literal_tags(sched))
+                    cases.append(Case("c07/%d/burst" % i, header(mods, cfg) + ["in " + hx(burst), "eof"],
+                                      tags={"group": "c07/%d" % i, "role": "all", "mods": mods}))
             if i % 5 == 4:
                 # one client after the other, each finished before the next is announced
                 ops = header(mods, cfg)
@@ -1596,7 +1605,10 @@ def conversation(recs, cid):
             m = CLIENT.match(l)
             if m and int(m.group(1)) == cid:
                 conv.append(l)
-    return conv
+    # queries of one client that follow each other are compared as a set whether or not they were
+    # written in one step (records of a burst hold the lines of many steps; the order of queries
+    # within a step is the order of service slots, which is not observable behaviour)
+    return sort_slot_runs(conv)
 
 
 def judge_all(prop, cases, impl, model, spec):
